@@ -660,6 +660,16 @@ for _c in CONSTANTS:
 
 CAT = [e for e in CAT if e is not None]
 
+# entries that also run in the interval context (probed: >= 3 of 4 generated calls return interval values)
+IV_EXTRA = ['expm1', 'sec', 'csc', 'sinc', 'sign', 'fabs', 'arg', 're', 'im', 'atan2', 'power', 'log_b', 'log_1', 'ln_int', 'exp_hi',
+            'sin_hi', 'cos_hi', 'powm1', 'cos_sin', 'polar', 'rect', 'gamma_big', 'gamma_int', 'factorial_int', 'polyexp', 'cyclotomic',
+            'mangoldt', 'bernfrac', 'eulernum', 'stirling1', 'stirling2', 'factorial_big', 'list_primes', 'polylog', 'polylog_r',
+            'siegeltheta', 'npdf', 'coulombc', 'hyp2f0', 'legendre', 'chebyt', 'chebyu', 'qp_n', 'qhyper']
+for _k in IV_EXTRA:
+    _e = BY_KEY.get(_k)
+    if _e is not None and 'iv' not in _e.ctxs:
+        _e.ctxs = tuple(_e.ctxs) + ('iv',)
+
 def entries(ctx=None, fam=None, c10=None, maxcost=3, cb=None):
     out = []
     for e in CAT:
